@@ -89,7 +89,7 @@ def answer (line : String) : String :=
     | _, _ => "bad-op"
   | ["polyrot", r, vals] =>
     match parseInt? r, parseNatList? vals with
-    | some r, some vals => fmtFrOpt (polyRotate (frList vals) r)
+    | some r, some vals => fmtFr (polyRotate (frList vals) r)
     | _, _ => "bad-op"
   | ["dominfo", j, k] =>
     match j.toNat?, k.toNat? with
@@ -169,9 +169,6 @@ def answer (line : String) : String :=
     match curveOf c with
     | some (cp, _) => fmtAffine (toAffine cp.p cp.gen) ++ (if onCurve cp cp.gx cp.gy then " on" else " off")
     | none => "bad-op"
-  | ["msm", "bls", "multiexp-empty", _, _, _, "-"] =>
-    -- `G1Projective::multi_exp(&[], &[])`: the blst binding indexes `points[0]`
-    "panic"
   | ["msm", c, entry, t, acc0, nbytes, pairs] =>
     match curveOf c, t.toNat?, parseNat? acc0, nbytes.toNat?, parsePairs pairs with
     | some (cp, table), some t, some acc0, some nbytes, some pairs =>
